@@ -305,3 +305,69 @@ def scalar_script(kind, idxs):
         env["out"] += [env["s"], env["t"], [*env["c"]], dict(env["o"])]
     exp = "".join(render(v) + "\n" for v in env["out"])
     return tags, SCALAR_PRELUDE.replace("INC", inct) + init + "\n".join(lines) + "\n", exp
+
+
+# ---------------------------------------------------------------------------- script -> expectation (replay, shrinking)
+def expected_of(src, max_steps=None):
+    """re-derive (prefix script, expected stdout, tags) from the text of a container-history script; None if the text
+    is not one of ours.  With `max_steps` only that many operations are kept."""
+    if not src.startswith(PRELUDE):
+        return None
+    body = src[len(PRELUDE):]
+    init = None
+    for name, (txt, mk_env) in INITS.items():
+        if body.startswith(txt):
+            init = name
+            body = body[len(txt):]
+            break
+    if init is None:
+        return None
+    env = INITS[init][1]()
+    lines = body.split("\n")
+    i = 0
+    step = 0
+    kept, expect, tags = [], [], []
+    while i < len(lines) and lines[i] != "":
+        if max_steps is not None and step >= max_steps:
+            break
+        l = lines[i]
+        if l.startswith("for ") and i + 2 < len(lines):
+            l = "\n".join(lines[i:i + 3])
+            i += 3
+        else:
+            i += 1
+        step += 1
+        hit = [o for o in ops(env, 10 * step) if o[1] == l]
+        if not hit:
+            return None
+        hit[0][2](env)
+        tags.append(hit[0][0])
+        o_t, o_e = observe(env)
+        if lines[i:i + len(o_t)] != o_t:
+            return None
+        i += len(o_t)
+        kept += [l] + o_t
+        expect += o_e
+    return PRELUDE + INITS[init][0] + "\n".join(kept) + "\n", "".join(e + "\n" for e in expect), tags
+
+
+def scalar_expected_of(src):
+    for kind, inct in (("int", "1"), ("str", "\"x\"")):
+        pre = SCALAR_PRELUDE.replace("INC", inct)
+        if not src.startswith(pre):
+            continue
+        allops = scalar_ops(kind)
+        texts = [o[1] for o in allops]
+        lines = src[len(pre):].split("\n")[4:]
+        idxs = []
+        i = 0
+        while i < len(lines) and lines[i] != "":
+            if lines[i] not in texts or lines[i + 1:i + 5] != ["print(s)", "print(t)", "print(c)", "print(o)"]:
+                break
+            idxs.append(texts.index(lines[i]))
+            i += 5
+        else:
+            tags, s2, exp = scalar_script(kind, idxs)
+            if s2 == src:
+                return exp, tags
+    return None
